@@ -1,7 +1,7 @@
 import EdpVerif.Lemmas.DistHeader
 import EdpVerif.Lemmas.DistBody
 import EdpVerif.Lemmas.DistReader
-import EdpVerif.Generated.Misc
+import EdpVerif.Generated.MiscC14
 import EdpVerif.Generated.Tags
 /-
 C14 — distribution headers and the atom cache resolve every atom correctly.
